@@ -17,7 +17,11 @@ Malformed constructor calls (reserved parameter names, Poisson cost with bad dat
 HistContainer constructor) have no object to leave unchanged: only (1) applies; the valid variant of the same
 constructor call must be accepted, otherwise the case is discarded.
 
-Only the malformation classes named in the statement are generated, one operator per class (OPERATORS below).
+Only the malformation classes named in the statement are generated, one operator per class (OPERATORS below), on
+data containers, single fits and MultiFits (sources shared between member fits).  Two more operators (CONDITIONAL)
+issue calls that are malformed in a way the statement does not list (bin heights that do not fit the binning, a shared
+source whose name is already taken in a member fit): for those clause (1) is not demanded (an accepted call is counted
+and the history ends), only the second sentence of the statement: IF the call is rejected, (2) and (3) apply.
 """
 import copy
 import re
@@ -85,6 +89,12 @@ ANCHORS = [
     ("kafe2.fit._base.cost", "CostFunction_NegLogLikelihood.is_data_compatible"),
     (_HC, "HistContainer.__init__"),
     (_HC, "HistContainer.rebin"),
+    (_HC, "HistContainer.set_bins"),
+    ("kafe2.core.fitters.nexus_fitter", "NexusFitter.unlimit_parameter"),
+    ("kafe2.fit._base.fit", "FitBase.unlimit_parameter"),
+    ("kafe2.fit.multi.fit", "MultiFit.add_error"),
+    ("kafe2.fit.multi.fit", "MultiFit.add_matrix_error"),
+    ("kafe2.fit.multi.fit", "MultiFit._add_error_object"),
     ("kafe2.fit.xy.container", "XYContainer._find_axis_raise"),
     ("kafe2.fit.xy.container", "XYContainer.add_error"),
     ("kafe2.fit.xy.container", "XYContainer.add_matrix_error"),
@@ -100,14 +110,21 @@ VARIANTS = {
     "corr-out-of-range": ["-0.1", "1.1", "inf", "-inf", "nan"],
     "cor-nonunit-diagonal": ["source", "constraint"],
     "constraint-matrix": ["nonsymmetric", "wrong-shape-bigger", "wrong-shape-nonsquare", "wrong-shape-flat", "names-values-short", "names-values-long"],
-    "unknown-parameter": ["set", "set-mixed", "fix", "fix-value", "limit", "constraint", "mconstraint", "release"],
+    "unknown-parameter": ["set", "set-mixed", "fix", "fix-value", "limit", "unlimit", "constraint", "mconstraint", "release"],
     "unknown-source": ["disable", "enable"],
     "reserved-name": ["rename"],
-    "poisson-data": ["negative", "non-integer"],
+    "poisson-data": ["negative", "non-integer", "non-integer-large"],
     "unsorted-edges": ["swap", "descending", "inner-form-swap"],
     "cycle": ["dep-single", "dep-self", "dep-list-first", "dep-list-last", "add-replace"],
+    # conditional operators (not a class of the statement: a raise is not demanded, "unchanged if rejected" is)
+    "bin-heights-shape": ["too-few", "too-many", "two-dimensional"],
+    "name-taken-in-member": ["in-later-member", "in-first-member"],
 }
 OPERATORS = list(VARIANTS)
+CONDITIONAL = ("bin-heights-shape", "name-taken-in-member")
+SOURCE_OPERATORS = ("size-off", "negative-entry", "corr-out-of-range", "cor-nonunit-diagonal")
+MULTI_KINDS = {"xy": ["xy", "xy"], "indexed": ["indexed", "indexed"], "mixed": ["xy", "indexed"]}
+MULTI_TARGETS = ["multi:%s" % k for k in MULTI_KINDS]
 
 
 def _fit_targets(types):
@@ -115,10 +132,10 @@ def _fit_targets(types):
 
 
 TARGETS = {
-    "size-off": ["container:%s" % t for t in ERR_TYPES] + _fit_targets(ERR_TYPES),
-    "negative-entry": ["container:%s" % t for t in ERR_TYPES] + _fit_targets(ERR_TYPES),
-    "corr-out-of-range": ["container:%s" % t for t in ERR_TYPES] + _fit_targets(ERR_TYPES),
-    "cor-nonunit-diagonal": ["container:%s" % t for t in ERR_TYPES] + _fit_targets(ERR_TYPES),
+    "size-off": ["container:%s" % t for t in ERR_TYPES] + _fit_targets(ERR_TYPES) + MULTI_TARGETS,
+    "negative-entry": ["container:%s" % t for t in ERR_TYPES] + _fit_targets(ERR_TYPES) + MULTI_TARGETS,
+    "corr-out-of-range": ["container:%s" % t for t in ERR_TYPES] + _fit_targets(ERR_TYPES) + MULTI_TARGETS,
+    "cor-nonunit-diagonal": ["container:%s" % t for t in ERR_TYPES] + _fit_targets(ERR_TYPES) + MULTI_TARGETS,
     "unknown-source": ["container:%s" % t for t in ERR_TYPES] + _fit_targets(ERR_TYPES),
     "constraint-matrix": _fit_targets(ALL_TYPES),
     "unknown-parameter": _fit_targets(ALL_TYPES),
@@ -126,9 +143,19 @@ TARGETS = {
     "poisson-data": ["ctor:%s" % t for t in ERR_TYPES] + _fit_targets(ERR_TYPES),
     "unsorted-edges": ["ctor:hist", "container:hist"],
     "cycle": ["graph:nexus"],
+    "bin-heights-shape": ["container:hist"],
+    "name-taken-in-member": list(MULTI_TARGETS),
 }
 REQUIRED_PAIRS = [(o, t) for o in OPERATORS for t in TARGETS[o]]
 ALL_VARIANTS = [(o, v) for o in OPERATORS for v in VARIANTS[o]]
+# (operator, target pattern, variant) triples enumerated on top of the pairs: where the outcome of the malformed call is decided
+# per (variant, backend) (parameter names go through the minimizer wrapper) or per (variant, entry point) (Poisson data)
+REQUIRED_TRIPLES = (
+    [("unknown-parameter", "fit:*/%s" % b, v) for v in VARIANTS["unknown-parameter"] for b in BACKENDS]
+    + [("poisson-data", t, v) for v in VARIANTS["poisson-data"] for t in TARGETS["poisson-data"]]
+    + [(o, t, v) for o in CONDITIONAL for t in TARGETS[o] for v in VARIANTS[o]]
+    + [("size-off", t, v) for t in MULTI_TARGETS for v in ("simple", "matrix-cov", "matrix-cor-errval")]
+)
 
 
 def variant_ok(operator, variant, target):
@@ -173,15 +200,21 @@ def _floors(k):
             "AB.later/graph.values": 5,
             "AB.later/op-outcome": 150,
             "AB.later/fit_result": 3,
+            "A.unchanged/member0.cost_function_value": 15,
+            "A.unchanged/member1.total_cov_mat": 15,
+            "A.unchanged/shared_names": 15,
+            "AB.later/member0.cost_function_value": 15,
+            "A.unchanged/n_entries": 8,
         },
         "ops": [
             "add_error", "add_matrix_error", "disable_error", "enable_error", "add_parameter_constraint", "add_matrix_parameter_constraint",
             "set_parameter_values", "fix_parameter", "release_parameter", "limit_parameter", "unlimit_parameter", "set_data", "do_fit", "read",
             "c.add_error", "c.add_matrix_error", "c.disable_error", "c.enable_error", "c.fill", "c.rebin", "c.set_data", "c.read",
             "g.set", "g.read", "g.read_all", "g.value_dict", "g.add_dependency", "g.add_function", "g.add_alias",
-        ],
+            "m.add_error", "m.add_matrix_error", "m.set_parameter_values", "m.read",
+        ] + ["malformed:%s" % o for o in OPERATORS],
         "reach": ["%s:%s" % a for a in ANCHORS],
-        "strata": ["%s|%s" % p for p in REQUIRED_PAIRS] + ["mode|warm", "mode|cold", "follow-valid", "rejected-at-start", "rejected-at-end"],
+        "strata": ["%s|%s" % p for p in REQUIRED_PAIRS] + ["%s|%s|%s" % t for t in REQUIRED_TRIPLES] + ["mode|warm", "mode|cold", "follow-valid", "rejected-at-start", "rejected-at-end", "poisson-large|one-entry", "poisson-large|all-entries", "multi|outsider-member", "multi|fits-all", "multi|fits-list"],
         "sets": {"operator_variant": len(ALL_VARIANTS), "exception_types": 8, "source_detail": 20},
         "distinct_nontrivial": 120 * k,
     }
@@ -285,6 +318,8 @@ def apply_container(c, ttype, op):
         return c.fill(list(op[1]))
     if k == "rebin":
         return c.rebin(list(op[1]))
+    if k == "set_bins":
+        return c.set_bins(op[1], **op[2])
     if k == "set_data":
         if ttype == "xy":
             setattr(c, op[1], np.array(op[2], dtype=float))
@@ -502,19 +537,23 @@ def _grow(mat, m):
     return out.tolist()
 
 
-def gen_bad_source(rng, ttype, n, name, operator, variant, for_fit, yscale):
+def gen_bad_source(rng, ttype, n, name, operator, variant, for_fit, yscale, base_force=None):
     """returns (valid op, malformed op, info)"""
     info = {}
+
+    def gvs(rng, ttype, n, name, for_fit, yscale, force=None):
+        return gen_valid_source(rng, ttype, n, name, for_fit, yscale, force=dict(force or {}, **(base_force or {})))
+
     if operator == "size-off":
         d = _pick_delta(rng, n)
         info["delta"] = d
         m = n + d
         if variant == "simple":
-            valid = gen_valid_source(rng, ttype, n, name, for_fit, yscale, force={"kind": "simple", "shape": str(rng.choice(["vec", "constvec", "veczero"]))})
+            valid = gvs(rng, ttype, n, name, for_fit, yscale, force={"kind": "simple", "shape": str(rng.choice(["vec", "constvec", "veczero"]))})
             bad = copy.deepcopy(valid)
             bad[1]["err"] = _resize(valid[1]["err"], m)
         elif variant in ("matrix-cov", "matrix-cov-nonsquare"):
-            valid = gen_valid_source(rng, ttype, n, name, for_fit, yscale, force={"kind": "matrix", "matrix_type": "cov"})
+            valid = gvs(rng, ttype, n, name, for_fit, yscale, force={"kind": "matrix", "matrix_type": "cov"})
             bad = copy.deepcopy(valid)
             if variant == "matrix-cov":
                 bad[1]["matrix"] = _grow(valid[1]["matrix"], m)
@@ -522,7 +561,7 @@ def gen_bad_source(rng, ttype, n, name, operator, variant, for_fit, yscale):
                 big = np.array(_grow(valid[1]["matrix"], max(n, m)))
                 bad[1]["matrix"] = (big[:n, :m] if rng.random() < 0.5 else big[:m, :n]).tolist()
         else:
-            valid = gen_valid_source(rng, ttype, n, name, for_fit, yscale, force={"kind": "matrix", "matrix_type": "cor"})
+            valid = gvs(rng, ttype, n, name, for_fit, yscale, force={"kind": "matrix", "matrix_type": "cor"})
             bad = copy.deepcopy(valid)
             if variant in ("matrix-cor-errval", "matrix-cor-both"):
                 bad[1]["err_val"] = _resize(valid[1]["err_val"], m)
@@ -532,27 +571,27 @@ def gen_bad_source(rng, ttype, n, name, operator, variant, for_fit, yscale):
                 bad[1]["matrix"] = g.tolist()
     elif operator == "negative-entry":
         if variant == "simple-vector":
-            valid = gen_valid_source(rng, ttype, n, name, for_fit, yscale, force={"kind": "simple", "shape": str(rng.choice(["vec", "constvec"]))})
+            valid = gvs(rng, ttype, n, name, for_fit, yscale, force={"kind": "simple", "shape": str(rng.choice(["vec", "constvec"]))})
             bad = copy.deepcopy(valid)
             i = int(rng.integers(0, n))
             bad[1]["err"][i] = -abs(bad[1]["err"][i])
             info["index"] = i
         elif variant == "simple-scalar":
-            valid = gen_valid_source(rng, ttype, n, name, for_fit, yscale, force={"kind": "simple", "shape": "scalar"})
+            valid = gvs(rng, ttype, n, name, for_fit, yscale, force={"kind": "simple", "shape": "scalar"})
             bad = copy.deepcopy(valid)
             bad[1]["err"] = -abs(bad[1]["err"])
         else:
-            valid = gen_valid_source(rng, ttype, n, name, for_fit, yscale, force={"kind": "matrix", "matrix_type": "cor"})
+            valid = gvs(rng, ttype, n, name, for_fit, yscale, force={"kind": "matrix", "matrix_type": "cor"})
             bad = copy.deepcopy(valid)
             i = int(rng.integers(0, n))
             bad[1]["err_val"][i] = -abs(bad[1]["err_val"][i])
             info["index"] = i
     elif operator == "corr-out-of-range":
-        valid = gen_valid_source(rng, ttype, n, name, for_fit, yscale, force={"kind": "simple"})
+        valid = gvs(rng, ttype, n, name, for_fit, yscale, force={"kind": "simple"})
         bad = copy.deepcopy(valid)
         bad[1]["corr"] = variant  # stored as string: 'nan' / 'inf' survive JSON
     elif operator == "cor-nonunit-diagonal":
-        valid = gen_valid_source(rng, ttype, n, name, for_fit, yscale, force={"kind": "matrix", "matrix_type": "cor"})
+        valid = gvs(rng, ttype, n, name, for_fit, yscale, force={"kind": "matrix", "matrix_type": "cor"})
         bad = copy.deepcopy(valid)
         i = int(rng.integers(0, n))
         v = float(rng.choice([0.0, 0.5, 0.9, 0.999, 1.001, 1.1, 2.0]))
@@ -580,6 +619,7 @@ class CState:
             self.n = len(cspec["edges"]) - 1
             self.edges = list(cspec["edges"])
             self.yscale = max(1.0, len(cspec["entries"]) / float(self.n))
+        self.manual = False  # hist: heights set with set_bins (fill / rebin are then refused, as documented)
 
     def new_name(self):
         self.k += 1
@@ -595,6 +635,8 @@ class CState:
                     s[1] = k == "enable_error"
         elif k == "rebin":
             self.edges = list(op[1])
+        elif k == "set_bins":
+            self.manual = True
 
 
 def _jitter_edges(rng, edges):
@@ -606,12 +648,29 @@ def _jitter_edges(rng, edges):
     return [float(np.round(v, 5)) for v in new]
 
 
+def gen_fill(rng, st):
+    return ["fill", [float(np.round(v, 5)) for v in rng.uniform(st.edges[0] - 0.5, st.edges[-1] + 0.5, size=int(rng.integers(1, 8)))]]
+
+
+def gen_set_bins(rng, n):
+    kw = {}
+    if rng.random() < 0.3:
+        kw["underflow"] = int(rng.integers(0, 5))
+    if rng.random() < 0.3:
+        kw["overflow"] = int(rng.integers(0, 5))
+    return ["set_bins", [int(v) for v in rng.integers(0, 30, size=n)], kw]
+
+
 def gen_container_op(rng, st):
     t = st.ttype
     for _ in range(20):
         r = rng.random()
         if r < 0.25:
             return ["read"]
+        if t == "hist" and st.manual and 0.75 <= r < 0.9:
+            continue
+        if t == "hist" and r >= 0.97 and not st.manual:
+            return gen_set_bins(rng, st.n)
         if r < 0.45:
             return gen_valid_source(rng, t, st.n, st.new_name(), False, st.yscale)
         if r < 0.6 and st.sources:
@@ -625,7 +684,7 @@ def gen_container_op(rng, st):
         if r < 0.9:
             if t == "hist":
                 if rng.random() < 0.6:
-                    return ["fill", [float(np.round(v, 5)) for v in rng.uniform(st.edges[0] - 0.5, st.edges[-1] + 0.5, size=int(rng.integers(1, 8)))]]
+                    return gen_fill(rng, st)
                 return ["rebin", _jitter_edges(rng, st.edges)]
             if t == "xy":
                 ax = str(rng.choice(["x", "y"]))
@@ -668,6 +727,16 @@ def gen_bad_container_op(rng, st, operator, variant):
     if operator == "unsorted-edges":
         valid = ["rebin", _jitter_edges(rng, st.edges)]
         return valid, ["rebin", _unsorted(rng, valid[1], variant)], {}
+    if operator == "bin-heights-shape":
+        valid = gen_set_bins(rng, st.n)
+        bad = copy.deepcopy(valid)
+        if variant == "two-dimensional":
+            bad[1] = [list(valid[1])] if rng.random() < 0.5 else [[v] for v in valid[1]]
+            return valid, bad, {}
+        ds = [d for d in ((-3, -2, -1) if variant == "too-few" else (1, 2, 3)) if st.n + d >= 1]
+        d = int(ds[int(rng.integers(0, len(ds)))])
+        bad[1] = _resize(valid[1], st.n + d)
+        return valid, bad, {"delta": d}
     raise KeyError(operator)
 
 
@@ -705,6 +774,11 @@ def gen_container_case(rng, tier, ttype, operator, variant):
             if valid is not None and follow:
                 history.append(valid)
                 st.track(valid)
+            elif operator == "bin-heights-shape":
+                # the rejected call is followed by the mutators it could interfere with
+                op = gen_fill(rng, st) if rng.random() < 0.5 else ["rebin", _jitter_edges(rng, st.edges)]
+                history.append(op)
+                st.track(op)
             continue
         op = gen_container_op(rng, st)
         st.track(op)
@@ -917,6 +991,40 @@ def gen_bad_constraint(rng, st, variant, nonunit=False):
     return valid, bad, info
 
 
+_HINT = {"gi": 0}  # position of the case in the enumeration: alternates sub-forms deterministically (not part of the case)
+
+
+def bad_counts(rng, variant, values):
+    """valid counts -> (valid counts, malformed counts, info).  'non-integer-large': counts of large magnitude (scaled or weighted
+    histograms) with a fractional part far above the float resolution, in one entry or in a subset of entries that are all large"""
+    valid = [float(v) for v in values]
+    n = len(valid)
+    i = int(rng.integers(0, n))
+    info = {"index": i}
+    bad = list(valid)
+    if variant == "negative":
+        bad[i] = -float(rng.integers(1, 4))
+    elif variant == "non-integer":
+        bad[i] = valid[i] + float(rng.choice([0.5, 0.25, 1e-3]))
+    elif variant == "non-integer-large":
+        mag = float(int(10 ** rng.uniform(3.0, 7.0)))
+        frac = float(rng.choice([0.5, 0.25, 0.1, 0.01]))
+        form = "one-entry" if _HINT["gi"] % 2 == 0 else "all-entries"
+        if form == "one-entry":
+            valid[i] = mag
+            bad = list(valid)
+            bad[i] = mag + frac
+        else:
+            valid = [mag + float(k) for k in rng.integers(0, max(2, int(3 * np.sqrt(mag))), size=n)]
+            idx = sorted(set([i] + [int(j) for j in rng.integers(0, n, size=int(rng.integers(0, n)))]))
+            bad = [v + frac if j in idx else v for j, v in enumerate(valid)]
+            info["indices"] = idx
+        info.update(form=form, magnitude=mag, fraction=frac)
+    else:
+        raise KeyError(variant)
+    return valid, bad, info
+
+
 def gen_bad_fit_op(rng, st, operator, variant):
     """(valid op or None, malformed op, info) or None if the state does not admit this operator"""
     t = st.ttype
@@ -968,6 +1076,10 @@ def gen_bad_fit_op(rng, st, operator, variant):
                 pv = st.pvals[p]
                 valid = ["limit_parameter", p, float(np.round(pv - abs(pv) - 0.5, 4)), float(np.round(pv + abs(pv) + 0.5, 4))]
             return valid, ["limit_parameter", name, lo, hi], info
+        if variant == "unlimit":
+            f = sorted(st.limited)
+            valid = ["unlimit_parameter", f[int(rng.integers(0, len(f)))]] if f else None
+            return valid, ["unlimit_parameter", name], info
         if variant == "constraint":
             valid = gen.gen_constraint(rng, pn, [st.pvals[q] for q in pn], force_kind="simple")
             bad = copy.deepcopy(valid)
@@ -989,20 +1101,17 @@ def gen_bad_fit_op(rng, st, operator, variant):
         new = gen_new_data(rng, st)
         if t == "hist":
             edges = list(st.spec["edges"])
-            heights = [float(v) for v in rng.integers(0, 25, size=len(edges) - 1)]
-            badh = list(heights)
-            i = int(rng.integers(0, len(badh)))
-            badh[i] = -float(rng.integers(1, 4)) if variant == "negative" else badh[i] + float(rng.choice([0.5, 0.25, 1e-3]))
+            heights, badh, info = bad_counts(rng, variant, rng.integers(0, 25, size=len(edges) - 1))
             form = str(rng.choice(["set_data_numpy_hist", "set_data_hist_bins"]))
-            return [form, heights, edges], [form, badh, edges], {"index": i, "form": form}
+            return [form, heights, edges], [form, badh, edges], dict(info, entry_point=form)
         key = "y" if t == "xy" else "data"
+        new[key], badv, info = bad_counts(rng, variant, new[key])
         bad = copy.deepcopy(new)
-        i = int(rng.integers(0, len(bad[key])))
-        bad[key][i] = -float(rng.integers(1, 4)) if variant == "negative" else bad[key][i] + float(rng.choice([0.5, 0.25, 1e-3]))
+        bad[key] = badv
         if rng.random() < 0.4:
             new["as_container"] = True
             bad["as_container"] = True
-        return ["set_data", new], ["set_data", bad], {"index": i, "as_container": bool(bad.get("as_container"))}
+        return ["set_data", new], ["set_data", bad], dict(info, as_container=bool(bad.get("as_container")))
     raise KeyError(operator)
 
 
@@ -1017,6 +1126,12 @@ def gen_fit_case(rng, tier, ttype, backend, operator, variant):
             op = gen_valid_source(rng, ttype, st.n, st.new_name(), True, st.yscale, force=force)
             st.track(op)
             setup.append(op)
+    if operator == "unknown-parameter" and variant == "unlimit" and rng.random() < 0.6:
+        p = st.pnames[int(rng.integers(0, len(st.pnames)))]
+        w = abs(st.pvals[p]) + 0.5
+        op = ["limit_parameter", p, float(np.round(st.pvals[p] - w, 4)), float(np.round(st.pvals[p] + w, 4))]
+        st.track(op)
+        setup.append(op)
     L = int(rng.integers(2, 9 if tier == "quick" else 21))
     r = rng.random()
     pos = 0 if r < 0.12 else (L if r < 0.24 else int(rng.integers(0, L + 1)))
@@ -1045,6 +1160,301 @@ def gen_fit_case(rng, tier, ttype, backend, operator, variant):
     }
 
 
+# ------------------------------------------------------------------ multi fits: build / ops / observables / generation
+MULTI_FAMILIES = ["poly1", "poly2", "exponential", "trig"]
+MULTI_COSTS = ["chi2", "chi2", "chi2_covariance", "chi2_fast"]
+
+
+def build_multi(case):
+    from kafe2.fit import MultiFit
+
+    fits = []
+    for spec, setup in zip(case["members"], case["member_setup"]):
+        f = dsl.build_fit(spec)
+        for op in setup:
+            dsl.apply_live(f, spec, decode_op(op))
+        fits.append(f)
+    return MultiFit(fits, minimizer=case["minimizer"])
+
+
+def apply_multi(mf, case, op):
+    k = op[0]
+    if k in ("add_error", "add_matrix_error"):
+        a = op[1]
+        fits = a["fits"]
+        if isinstance(fits, int) and case["members"][fits]["type"] != "xy":
+            # a source of one member fit, declared on that member
+            return dsl.apply_live(mf.fits[fits], case["members"][fits], decode_op([k, {x: v for x, v in a.items() if x != "fits"}]))
+        kw = dict(fits=fits if isinstance(fits, (int, str)) else list(fits), axis=a.get("axis"), name=a["name"], relative=a.get("relative", False), reference=a.get("reference", "data"))
+        if k == "add_error":
+            err = a["err"]
+            err = np.array(err, dtype=float) if isinstance(err, (list, tuple)) else err
+            return mf.add_error(err_val=err, correlation=_f(a.get("corr", 0.0)), **kw)
+        ev = a.get("err_val")
+        ev = np.array(ev, dtype=float) if isinstance(ev, (list, tuple)) else ev
+        return mf.add_matrix_error(err_matrix=np.array(a["matrix"], dtype=float), matrix_type=a["matrix_type"], err_val=ev, **kw)
+    if k == "disable_error":
+        return mf.disable_error(op[1])
+    if k == "enable_error":
+        return mf.enable_error(op[1])
+    if k == "set_parameter_values":
+        return mf.set_parameter_values(**op[1])
+    if k == "fix_parameter":
+        return mf.fix_parameter(op[1], op[2] if len(op) > 2 else None)
+    if k == "release_parameter":
+        return mf.release_parameter(op[1])
+    if k == "do_fit":
+        return mf.do_fit()
+    raise KeyError(k)
+
+
+def multi_obs(mf):
+    out = {}
+    _rd(out, "cost_function_value", lambda: float(mf.cost_function_value))
+    _rd(out, "total_cov_mat", lambda: mf.total_cov_mat)
+    _rd(out, "total_error", lambda: mf.total_error)
+    _rd(out, "goodness_of_fit", lambda: mf.goodness_of_fit)
+    _rd(out, "model", lambda: [np.array(v, dtype=float) for v in mf.model])
+    _rd(out, "data", lambda: [np.array(v, dtype=float) for v in mf.data])
+    _rd(out, "ndf", lambda: int(mf.ndf))
+    _rd(out, "parameter_values", lambda: np.array(mf.parameter_values, dtype=float))
+    _rd(out, "fixed_parameters", lambda: dict(mf._fitter.fixed_parameters))
+    _rd(out, "limited_parameters", lambda: dict(mf._fitter.limited_parameters))
+    _rd(out, "did_fit", lambda: bool(mf.did_fit))
+    _rd(out, "shared_names", lambda: [[str(n), bool(d["enabled"]), d.get("axis")] for n, d in mf._shared_error_dicts.items()])
+
+    def sources():
+        r = []
+        for i, f in enumerate(mf.fits):
+            for where, cont in (("data", f._data_container), ("model", f._param_model)):
+                for n, d in cont._error_dicts.items():
+                    r.append([i, where, str(n), bool(d["enabled"]), d.get("axis")])
+        return r
+
+    _rd(out, "sources", sources)
+    for i, f in enumerate(mf.fits):
+        _rd(out, "member%d.cost_function_value" % i, lambda f=f: float(f.cost_function_value))
+        _rd(out, "member%d.total_cov_mat" % i, lambda f=f: f.total_cov_mat)
+    if out.get("did_fit") is True:
+        _rd(out, "parameter_errors", lambda: np.array(mf.parameter_errors, dtype=float))
+    return out
+
+
+class MState:
+    def __init__(self, members, group):
+        self.members = members
+        self.group = list(group)  # members that can share a source: same data size, chi2 cost
+        self.types = [m["type"] for m in members]
+        key = lambda m: "y" if m["type"] == "xy" else "data"  # noqa: E731
+        self.sizes = [len(m[key(m)]) for m in members]
+        self.n = self.sizes[self.group[0]]
+        self.yscales = [float(np.mean(np.abs(m[key(m)])) + 0.5) for m in members]
+        self.yscale = float(np.mean([self.yscales[i] for i in self.group]))
+        self.own = [[] for _ in members]  # names of the sources declared on one member
+        self.sources = []  # [name, enabled]: every name the multi fit knows
+        self.k = 0
+        self.pnames, self.pvals = [], {}
+        for m in members:
+            mod = Model.from_spec(m["model"])
+            for nm, v in zip(mod.pnames, mod.defaults):
+                if nm not in self.pvals:
+                    self.pnames.append(nm)
+                    self.pvals[nm] = float(v)
+        self.fixed = set()
+        self.did_fit = False
+
+    def new_name(self):
+        self.k += 1
+        return "s%d" % self.k
+
+    def track(self, op):
+        k = op[0]
+        if k in ("add_error", "add_matrix_error"):
+            self.sources.append([op[1]["name"], True])
+            if isinstance(op[1]["fits"], int):
+                self.own[op[1]["fits"]].append(op[1]["name"])
+        elif k in ("disable_error", "enable_error"):
+            for s in self.sources:
+                if s[0] == op[1]:
+                    s[1] = k == "enable_error"
+        elif k == "set_parameter_values":
+            self.pvals.update(op[1])
+        elif k == "fix_parameter":
+            self.fixed.add(op[1])
+            if len(op) > 2 and op[2] is not None:
+                self.pvals[op[1]] = op[2]
+        elif k == "release_parameter":
+            self.fixed.discard(op[1])
+        elif k == "do_fit":
+            self.did_fit = True
+
+
+def pick_fits(rng, st, form=None):
+    """which members share the source: 'all' (only when every member can) or a list of >= 2 members of the group"""
+    g = list(st.group)
+    whole = len(g) == len(st.members)
+    if form is None:
+        form = "all" if (whole and rng.random() < 0.5) else "list"
+    if form == "all" and whole:
+        return "all"
+    k = int(rng.integers(2, len(g) + 1))
+    sel = [g[int(i)] for i in rng.choice(len(g), size=k, replace=False)]
+    return sel if rng.random() < 0.4 else sorted(sel)
+
+
+def shared_axis(rng, st, fits, generated_axis):
+    types = [st.types[i] for i in (range(len(st.members)) if fits == "all" else fits)]
+    if all(t == "xy" for t in types):
+        return gen.norm_axis(generated_axis) or "y"
+    if all(t == "indexed" for t in types):
+        return None if rng.random() < 0.5 else "y"
+    return "y"
+
+
+def as_shared(rng, st, fits, *ops):
+    """turn add_error / add_matrix_error ops generated for one fit into ops on the multi fit (same axis and members for all)"""
+    ax = shared_axis(rng, st, fits, ops[0][1].get("axis"))
+    for op in ops:
+        op[1]["axis"] = ax
+        op[1]["fits"] = fits
+    return ops
+
+
+def _shared_ttype(st, fits):
+    types = [st.types[i] for i in (range(len(st.members)) if fits == "all" else fits)]
+    return "xy" if all(t == "xy" for t in types) else "indexed"
+
+
+def gen_shared_source(rng, st, name, form=None):
+    fits = pick_fits(rng, st, form)
+    op = gen_valid_source(rng, _shared_ttype(st, fits), st.n, name, True, st.yscale, force={"relative": False})
+    return as_shared(rng, st, fits, op)[0]
+
+
+def gen_member_source(rng, st, j, name):
+    op = gen_valid_source(rng, st.types[j], st.sizes[j], name, True, st.yscales[j])
+    op[1]["fits"] = j
+    return op
+
+
+def gen_multi_op(rng, st):
+    free = [p for p in st.pnames if p not in st.fixed]
+    for _ in range(30):
+        r = rng.random()
+        if r < 0.25:
+            return ["read"]
+        if r < 0.45:
+            return gen_shared_source(rng, st, st.new_name())
+        if r < 0.58:
+            return gen_member_source(rng, st, int(rng.integers(0, len(st.members))), st.new_name())
+        if r < 0.66 and st.sources:
+            en = [s[0] for s in st.sources if s[1]]
+            if en:
+                return ["disable_error", en[int(rng.integers(0, len(en)))]]
+        if r < 0.74 and st.sources:
+            dis = [s[0] for s in st.sources if not s[1]]
+            if dis:
+                return ["enable_error", dis[int(rng.integers(0, len(dis)))]]
+        if r < 0.9 and free:
+            k = int(rng.integers(1, len(free) + 1))
+            idx = rng.choice(len(free), size=k, replace=False)
+            return ["set_parameter_values", {free[int(i)]: _near(rng, st.pvals[free[int(i)]]) for i in idx}]
+        if r < 0.96 and len(free) > 1:
+            p = free[int(rng.integers(0, len(free)))]
+            return ["fix_parameter", p, None if (rng.random() < 0.5 or st.did_fit) else _near(rng, st.pvals[p])]
+        if r >= 0.96 and st.fixed:
+            f = sorted(st.fixed)
+            return ["release_parameter", f[int(rng.integers(0, len(f)))]]
+    return ["read"]
+
+
+def gen_bad_multi_op(rng, st, operator, variant, form):
+    if operator in SOURCE_OPERATORS:
+        fits = pick_fits(rng, st, form)
+        valid, bad, info = gen_bad_source(rng, _shared_ttype(st, fits), st.n, st.new_name(), operator, variant, True, st.yscale, base_force={"relative": False})
+        as_shared(rng, st, fits, valid, bad)
+        return valid, bad, dict(info, fits=fits)
+    if operator == "name-taken-in-member":
+        fits = pick_fits(rng, st, form)
+        order = list(range(len(st.members))) if fits == "all" else list(fits)
+        pool = [j for j in (order[1:] if variant == "in-later-member" else order[:1]) if st.own[j]]
+        if not pool:
+            return None
+        j = pool[int(rng.integers(0, len(pool)))]
+        taken = st.own[j][int(rng.integers(0, len(st.own[j])))]
+        valid = gen_valid_source(rng, _shared_ttype(st, fits), st.n, st.new_name(), True, st.yscale, force={"relative": False})
+        as_shared(rng, st, fits, valid)
+        bad = copy.deepcopy(valid)
+        bad[1]["name"] = taken
+        return valid, bad, {"taken_in_member": j, "members_before": order[: order.index(j)], "fits": fits}
+    raise KeyError(operator)
+
+
+def gen_multi_case(rng, tier, mkind, operator, variant):
+    backend = str(rng.choice(BACKENDS))
+    hint = _HINT["gi"] % 3  # 0: a member outside the group (fits given as a list), 1: fits='all', 2: fits given as a list
+    types = list(MULTI_KINDS[mkind])
+    if rng.random() < 0.3:
+        types.append(str(rng.choice(MULTI_KINDS[mkind])))
+    n = int(rng.integers(4, 8 if tier == "quick" else 12))
+    members = []
+    for t in types:
+        g = gen.gen_xy_spec if t == "xy" else gen.gen_indexed_spec
+        members.append(g(rng, family=str(rng.choice(MULTI_FAMILIES)), n=n, cost=str(rng.choice(MULTI_COSTS)), minimizer=backend))
+    group = list(range(len(members)))
+    if hint == 0:
+        t = str(rng.choice(["xy", "indexed"]))
+        g = gen.gen_xy_spec if t == "xy" else gen.gen_indexed_spec
+        outsider = g(rng, family=str(rng.choice(MULTI_FAMILIES)), n=n + int(rng.integers(1, 4)), cost=str(rng.choice(MULTI_COSTS + ["nll_gaussian"])), minimizer=backend)
+        at = int(rng.integers(0, len(members) + 1))
+        members.insert(at, outsider)
+        group = [i for i in range(len(members)) if i != at]
+    st = MState(members, group)
+    member_setup = [[] for _ in members]
+    for j in range(len(members)):
+        # a member without any source of its own uses the 'no errors' chi2 until the first source arrives
+        k = int(rng.integers(0, 3))
+        if operator == "name-taken-in-member" and j in group and k == 0 and (variant == "in-first-member" or j != group[0]):
+            k = 1
+        for _ in range(k):
+            op = gen_member_source(rng, st, j, st.new_name())
+            st.track(op)
+            member_setup[j].append([op[0], {x: v for x, v in op[1].items() if x != "fits"}])
+    form = "all" if hint == 1 else "list"
+    setup = []
+    for _ in range(int(rng.integers(0, 3))):
+        op = gen_shared_source(rng, st, st.new_name())
+        st.track(op)
+        setup.append(op)
+    L = int(rng.integers(2, 8 if tier == "quick" else 16))
+    r = rng.random()
+    pos = 0 if r < 0.12 else (L if r < 0.24 else int(rng.integers(0, L + 1)))
+    fit_at = int(rng.integers(0, L)) if rng.random() < 0.1 else -1
+    follow = bool(rng.random() < 0.5)
+    history, valid, bad, info = [], None, None, {}
+    while len(history) < L or bad is None:
+        if len(history) >= pos and bad is None:
+            g = gen_bad_multi_op(rng, st, operator, variant, form)
+            if g is None:
+                return None
+            valid, bad, info = g
+            if valid is not None and follow:
+                history.append(valid)
+                st.track(valid)
+            continue
+        if len(history) >= fit_at >= 0 and not st.did_fit and len(st.fixed) < len(st.pnames):
+            op = ["do_fit"]
+        else:
+            op = gen_multi_op(rng, st)
+        st.track(op)
+        history.append(op)
+    return {
+        "property": "C19", "target": "multi:%s" % mkind, "operator": operator, "variant": variant, "minimizer": backend, "members": members,
+        "member_setup": member_setup, "group": group, "setup": setup, "history": history, "pos": pos, "bad": bad, "info": info,
+        "follow_valid": bool(follow and valid is not None), "warm": bool(rng.random() < 0.5),
+    }
+
+
 # ------------------------------------------------------------------ generation: constructor-time classes
 def gen_ctor_case(rng, tier, ttype, operator, variant):
     backend = str(rng.choice(BACKENDS))
@@ -1060,20 +1470,17 @@ def gen_ctor_case(rng, tier, ttype, operator, variant):
         return case
     if operator == "poisson-data":
         spec = gen_fit_spec(rng, ttype, tier, backend, poisson=True)
-        bad = copy.deepcopy(spec)
         if ttype == "hist":
             edges = list(spec["edges"])
-            heights = [float(v) for v in rng.integers(0, 25, size=len(edges) - 1)]
-            badh = list(heights)
-            i = int(rng.integers(0, len(badh)))
-            badh[i] = -float(rng.integers(1, 4)) if variant == "negative" else badh[i] + float(rng.choice([0.5, 0.25, 1e-3]))
+            heights, badh, info = bad_counts(rng, variant, rng.integers(0, 25, size=len(edges) - 1))
             form = str(rng.choice(["numpy_hist", "hist_bins"]))
-            case.update(spec=spec, form=form, heights=heights, bad_heights=badh, info={"index": i})
+            case.update(spec=spec, form=form, heights=heights, bad_heights=badh, info=info)
             return case
         key = "y" if ttype == "xy" else "data"
-        i = int(rng.integers(0, len(spec[key])))
-        bad[key][i] = -float(rng.integers(1, 4)) if variant == "negative" else spec[key][i] + float(rng.choice([0.5, 0.25, 1e-3]))
-        case.update(spec=spec, bad_spec=bad, as_container=bool(rng.random() < 0.4), info={"index": i})
+        spec[key], badv, info = bad_counts(rng, variant, spec[key])
+        bad = copy.deepcopy(spec)
+        bad[key] = badv
+        case.update(spec=spec, bad_spec=bad, as_container=bool(rng.random() < 0.4), info=info)
         return case
     if operator == "unsorted-edges":
         cs = gen_container_spec(rng, "hist", tier)
@@ -1258,19 +1665,27 @@ def gen_case_for(rng, tier, operator, target, variant):
         return gen_fit_case(rng, tier, ttype, backend, operator, variant)
     if kind == "ctor":
         return gen_ctor_case(rng, tier, rest, operator, variant)
+    if kind == "multi":
+        return gen_multi_case(rng, tier, rest, operator, variant)
     return gen_graph_case(rng, tier, operator, variant)
 
 
 def gen_case(rng, tier, idx, shard, nshards):
     gi = idx * nshards + shard
-    n1, n2 = len(REQUIRED_PAIRS), len(ALL_VARIANTS)
+    _HINT["gi"] = gi
+    n1, n2, n3 = len(REQUIRED_PAIRS), len(ALL_VARIANTS), len(REQUIRED_TRIPLES)
     for _ in range(50):
         if gi < n1:
             operator, target = REQUIRED_PAIRS[gi]
             vs = [v for v in VARIANTS[operator] if variant_ok(operator, v, target)]
             variant = vs[int(rng.integers(0, len(vs)))]
-        elif gi < n1 + 2 * n2:
-            operator, variant = ALL_VARIANTS[(gi - n1) % n2]
+        elif gi < n1 + n3:
+            operator, target, variant = REQUIRED_TRIPLES[gi - n1]
+            if "*" in target:
+                ts = [t for t in TARGETS[operator] if t.split("/")[-1] == target.split("/")[-1]]
+                target = ts[int(rng.integers(0, len(ts)))]
+        elif gi < n1 + n3 + 2 * n2:
+            operator, variant = ALL_VARIANTS[(gi - n1 - n3) % n2]
             ts = [t for t in TARGETS[operator] if variant_ok(operator, variant, t)]
             target = ts[int(rng.integers(0, len(ts)))]
         else:
@@ -1303,7 +1718,13 @@ def classify(case, clause, extra=None):
         # the data setter swaps the container in before the cost function validates the data: the rejected data stay
         if op == "poisson-data" and kind == "fit" and extra.get("holds_rejected_data") is True and extra.get("observable") in ("data", "cost_function_value", "model", "y_model", "total_cov_mat", "total_error", "sources", "ndf"):
             return "C19/data-setter-keeps-rejected-data"
-        return None
+    if clause in ("unchanged", "later") and kind == "multi" and op == "name-taken-in-member" and var == "in-later-member":
+        # a shared source refused by a later member was first handed to an earlier member that had no source at all: the roll-back removes
+        # the source but that member has left the 'no errors' chi2 for good (its cost becomes nan / inf, and so does the multi fit's)
+        o = str(extra.get("observable"))
+        costlike = o in ("cost_function_value", "goodness_of_fit", "op-outcome", "fit_result", "parameter_values", "parameter_errors", "did_fit") or any(o == "member%d.cost_function_value" % j for j in extra.get("earlier_members_on_implicit_no_errors_chi2") or [])
+        if extra.get("earlier_members_on_implicit_no_errors_chi2") and costlike:
+            return "C19/shared-source-refused-by-later-member-leaves-earlier-member-off-no-errors-chi2"
     return None
 
 
@@ -1326,6 +1747,11 @@ class Twin:
             self.obj = dsl.build_fit(self.spec)
             for op in case["setup"]:
                 apply_fit(self.obj, self.spec, op)
+        elif kind == "multi":
+            self.ttype = rest
+            self.obj = build_multi(case)
+            for op in case["setup"]:
+                apply_multi(self.obj, case, op)
         else:
             self.ttype = "nexus"
             self.obj = Graph(case["program"])
@@ -1333,6 +1759,9 @@ class Twin:
     def apply(self, op):
         if self.kind == "container":
             return apply_container(self.obj, self.ttype, decode_op(op))
+        if self.kind == "multi":
+            with time_limit(60.0):
+                return apply_multi(self.obj, self.case, op)
         if self.kind == "fit":
             with time_limit(60.0):
                 return apply_fit(self.obj, self.spec, op)
@@ -1344,6 +1773,8 @@ class Twin:
             return container_obs(self.obj, self.ttype)
         if self.kind == "fit":
             return fit_obs(self.obj, self.ttype)
+        if self.kind == "multi":
+            return multi_obs(self.obj)
         return graph_obs(self.obj)
 
     def read_one(self, name):
@@ -1353,7 +1784,7 @@ class Twin:
 
 
 def op_label(kind, op):
-    return {"container": "c.", "graph": "g.", "fit": ""}[kind] + op[0]
+    return {"container": "c.", "graph": "g.", "fit": "", "multi": "m."}[kind] + op[0]
 
 
 def compare_later(ctx, case, a, b, where, fitted):
@@ -1372,14 +1803,14 @@ def compare_later(ctx, case, a, b, where, fitted):
         elif fitted and name == "parameter_errors":
             good = same(va, vb, Tol.custom("OPTIM-err", 1e-2, 1e-12))
             tolname = "OPTIM-err 1e-2"
-        elif name in ("sources", "ndf", "n_constraints", "did_fit", "graph.structure", "graph.values", "graph.value_dict", "n_entries", "underflow", "overflow"):
+        elif name in ("sources", "ndf", "n_constraints", "did_fit", "graph.structure", "graph.values", "graph.value_dict", "n_entries", "underflow", "overflow", "shared_names"):
             good = same(va, vb, EXACT)
             tolname = "EXACT"
         else:
             tol = OPTIMD if fitted else LINALG
             good = same(va, vb, tol)
             tolname = tol[0]
-        ctx.check("AB.later/%s" % name, good, lambda: {"where": where, "A": va, "B": vb, "tolerance": tolname, "bad": case["bad"]}, key=lambda: classify(case, "later", {"observable": name}))
+        ctx.check("AB.later/%s" % name, good, lambda: {"where": where, "A": va, "B": vb, "tolerance": tolname, "bad": case["bad"]}, key=lambda: classify(case, "later", dict(_FEATS, observable=name)))
         ok = ok and good
     return ok
 
@@ -1400,6 +1831,32 @@ def holds_rejected_data(case, a1):
     except Exception:
         pass
     return False
+
+
+_FEATS = {}  # classifier features of the running history (set at the rejection, cleared at the start of every case)
+
+
+def record_strata(ctx, case):
+    op, tgt, var = case["operator"], case["target"], case["variant"]
+    ctx.stratum(op, tgt)
+    ctx.stratum(op, tgt, var)
+    if tgt.startswith("fit:"):
+        ctx.stratum(op, "fit:*/%s" % tgt.split("/")[1], var)
+    if var == "non-integer-large":
+        ctx.stratum("poisson-large", case["info"]["form"])
+    if tgt.startswith("multi:"):
+        if len(case["group"]) < len(case["members"]):
+            ctx.stratum("multi", "outsider-member")
+        ctx.stratum("multi", "fits-all" if case["bad"][1].get("fits") == "all" else "fits-list")
+
+
+def rejection_features(case, before):
+    """classifier features read off the state before the rejected call"""
+    f = {}
+    if case["target"].startswith("multi:") and case["operator"] == "name-taken-in-member":
+        have = set(r[0] for r in before.get("sources", []) if isinstance(r, list))
+        f["earlier_members_on_implicit_no_errors_chi2"] = [j for j in case["info"].get("members_before", []) if j not in have and case["members"][j]["cost"] == "chi2"]
+    return f
 
 
 def reject_step(ctx, case, A, B):
@@ -1437,15 +1894,22 @@ def reject_step(ctx, case, A, B):
         exc = e
     ctx.op("malformed:" + case["operator"])
     ctx.add_to_set("operator_variant", "%s|%s" % (case["operator"], case["variant"]))
-    ctx.stratum(case["operator"], case["target"])
+    record_strata(ctx, case)
     if case["bad"][0] in ("add_error", "add_matrix_error"):
         a = case["bad"][1]
-        ctx.add_to_set("source_detail", "%s|%s|%s|axis=%s|rel=%s|ref=%s" % (case["operator"], case["bad"][0], a.get("matrix_type", "-"), gen.norm_axis(a.get("axis")), a.get("relative"), a.get("reference") if A.kind == "fit" else "data"))
-    ctx.check(
-        "reject.raises", exc is not None,
-        lambda: {"what": "malformed call was accepted", "operator": case["operator"], "variant": case["variant"], "target": case["target"], "bad": case["bad"], "info": case.get("info")},
-        key=lambda: classify(case, "raises"),
-    )
+        ctx.add_to_set("source_detail", "%s|%s|%s|axis=%s|rel=%s|ref=%s" % (case["operator"], case["bad"][0], a.get("matrix_type", "-"), gen.norm_axis(a.get("axis")), a.get("relative"), a.get("reference") if A.kind in ("fit", "multi") else "data"))
+    if case["operator"] in CONDITIONAL:
+        # not a class of the statement: a raise is not demanded; only a *rejected* call has to leave no trace
+        ctx.op("conditional:%s:%s" % (case["operator"], "rejected" if exc is not None else "accepted"))
+        if exc is None:
+            ctx.discard("conditional-operator-accepted:%s" % case["operator"])
+            return False
+    else:
+        ctx.check(
+            "reject.raises", exc is not None,
+            lambda: {"what": "malformed call was accepted", "operator": case["operator"], "variant": case["variant"], "target": case["target"], "bad": case["bad"], "info": case.get("info")},
+            key=lambda: classify(case, "raises"),
+        )
     if exc is None:
         return False
     ctx.add_to_set("exception_types", "%s|%s" % (case["operator"], type(exc).__name__))
@@ -1454,14 +1918,17 @@ def reject_step(ctx, case, A, B):
     before = a0 if warm else b1
     ok = True
     hr = None
+    feats = rejection_features(case, before)
+    _FEATS.clear()
+    _FEATS.update(feats)  # for the classifier of later divergences of this history
     for name in before:
         good = same(a1.get(name), before[name], EXACT)
         if not good and hr is None:
             hr = holds_rejected_data(case, a1)
         ctx.check(
             "A.unchanged/%s" % name, good,
-            lambda name=name: {"what": "observable changed by a rejected call", "after": a1.get(name), "before": before[name], "before_is": "A before the call" if warm else "twin B", "exception": repr(exc)[:200], "bad": case["bad"], "tolerance": "EXACT"},
-            key=lambda name=name: classify(case, "unchanged", {"observable": name, "holds_rejected_data": hr}),
+            lambda name=name: {"what": "observable changed by a rejected call", "after": a1.get(name), "before": before[name], "before_is": "A before the call" if warm else "twin B", "exception": repr(exc)[:200], "bad": case["bad"], "tolerance": "EXACT", "features": feats},
+            key=lambda name=name: classify(case, "unchanged", dict(feats, observable=name, holds_rejected_data=hr)),
         )
         ok = ok and good
     return ok
@@ -1526,7 +1993,7 @@ def run_twin(ctx, case):
             ctx.check(
                 "AB.later/op-outcome", same_outcome,
                 lambda: {"what": "a valid call after the rejection behaves differently on A and B", "op": op, "A": repr(ra)[:300], "B": repr(rb)[:300], "bad": case["bad"]},
-                key=lambda: classify(case, "later", {"observable": "op-outcome"}),
+                key=lambda: classify(case, "later", dict(_FEATS, observable="op-outcome")),
             )
             if not same_outcome:
                 return issued
@@ -1654,7 +2121,7 @@ def run_ctor(ctx, case):
         exc = e
     ctx.op("malformed:" + operator)
     ctx.add_to_set("operator_variant", "%s|%s" % (operator, case["variant"]))
-    ctx.stratum(operator, case["target"])
+    record_strata(ctx, case)
     ctx.check(
         "reject.raises", exc is not None,
         lambda: {"what": "malformed constructor call was accepted", "operator": operator, "variant": case["variant"], "target": case["target"], "case": {k: v for k, v in case.items() if k not in ("spec", "bad_spec")}},
@@ -1667,6 +2134,7 @@ def run_ctor(ctx, case):
 
 def run_case(ctx, case):
     ctx.reseed_legacy()
+    _FEATS.clear()
     if case["target"].startswith("ctor:"):
         return run_ctor(ctx, case)
     return run_twin(ctx, case)
